@@ -817,7 +817,9 @@ func nextForm(st []any) (any, []any) {
 		if ov, ok := v.(*op); ok {
 			f := Form{Op: ov.name}
 			f.Left, st = nextForm(st)
-			f.Right, st = nextForm(st)
+			if 1 < ov.cnt {
+				f.Right, st = nextForm(st)
+			}
 			v = &f
 		}
 	}
